@@ -175,10 +175,6 @@ def IHI (P : Str → Prop) (root : Val) (fuel : Nat) : Prop :=
     (∀ f, fst = some f → Good P root f) →
     Post P root (starIdx fuel root sp false n i rest par rl found acc fst all)
 
-theorem pyInCond_err {c : CondVal} {v : Val} {e : PyErr} (h : pyInCond c v = .error e) : e = .TypeError := by
-  unfold pyInCond at h
-  split at h <;> cases h <;> rfl
-
 theorem Post_err {root : Val} {e : PyErr} (h : okErr e = true) : Post P root (.error e) := h
 
 theorem Good_mk_none {root : Val} {par : PRef} {found : Str} {v : Val} {nf : Option (List Str)}
@@ -408,18 +404,13 @@ theorem findD_step [SafePred P] (root : Val) (hroot : SafeKeys P root) (fuel : N
               split
               · -- text() condition on the parent itself
                 split
-                · rename_i e heq
-                  repeat' split at heq
-                  all_goals first
-                    | (cases heq; done)
-                    | (cases heq; rfl)
                 · exact Post_err rfl
                 · split
                   · rename_i e heq
                     split at heq
                     · cases heq
                     · split at heq
-                      · rw [pyInCond_err heq]; exact Post_err rfl
+                      · cases heq
                       · cases heq; exact Post_err rfl
                   · split
                     · rename_i e heq
